@@ -484,6 +484,9 @@ func run(tr *tl.Trace, steps []step, sum *tl.Summary) int {
 		a := &steps[1+i].Act
 		norm(a.Block)
 		cls := s.apply(a)
+		if len(cls) > 6 && cls[:6] == "other:" {
+			tl.Fatal("harness produced a transaction outside the modelled error classes: %+v: %s", a.Tx, cls)
+		}
 		st, tie := s.project()
 		if tie {
 			sum.Notes = append(sum.Notes, "equal heartbeats observed; rest of the behaviour skipped")
@@ -569,7 +572,7 @@ func runRecord(trace string, seed int64, ntraces, nsteps int, sum *tl.Summary) {
 		if r.Intn(5) == 0 { // roomy pool: long lists, heap balancing
 			cfg = &acfg{Bump: 10, ASlots: 4, GSlots: 8, AQueue: 4, GQueue: 4}
 		}
-		bals := []int64{0, 430000, 900000, 3000000, 20000000}
+		bals := []int64{0, 420000, 462000, 900000, 3000000, 20000000, 441000} // some equal to the cost of a plain transfer at fee 20/22/21
 		gen := &ablock{Parent: 0, Num: 0, Txs: []atx{}, Nonce: map[string]int64{}, Bal: map[string]int64{}, Deleg: map[string]bool{}, Bf: int64(r.Intn(3)) * 7}
 		for _, n := range acctNames {
 			gen.Nonce[n] = int64(r.Intn(2)) * int64(r.Intn(3))
@@ -611,6 +614,24 @@ func runRecord(trace string, seed int64, ntraces, nsteps int, sum *tl.Summary) {
 				tx := fresh(from, nonce)
 				if k := known[fmt.Sprintf("%s/%d", from, nonce)]; len(k) > 0 && r.Intn(4) == 0 {
 					tx = k[r.Intn(len(k))] // resubmission of something seen before
+				} else if len(k) > 0 && r.Intn(2) == 0 {
+					// replacement attempt right at the price-bump boundary of something seen before
+					o := k[r.Intn(len(k))]
+					tx = o
+					tx.Cap = o.Cap*(100+cfg.Bump)/100 + int64(r.Intn(3)) - 1
+					tx.Tip = o.Tip*(100+cfg.Bump)/100 + int64(r.Intn(3)) - 1
+					if r.Intn(3) == 0 {
+						tx.Tip = o.Tip + int64(r.Intn(2))
+					}
+					if tx.Cap < 1 {
+						tx.Cap = 1
+					}
+					if tx.Tip < 1 {
+						tx.Tip = 1
+					}
+					if tx.Tip > tx.Cap {
+						tx.Tip = tx.Cap
+					}
 				}
 				remember(tx)
 				a = act{Op: "add", Tx: &tx}
